@@ -1,6 +1,8 @@
 -- everything the drivers (Driver.lean, DriverMemIO.lean, DriverCim.lean) import; built before every correspondence run
 import Z80.Proto
 import Z80.Gen.All
+import Z80.Gen.TinyCPM
+import Z80.Gen.ZexData
 import Z80.Spec.Koron
 import Z80.Spec.Interrupt
 import Z80.Spec.KoronIM0
